@@ -1054,6 +1054,152 @@ def c16(res, wd):
                 "as expectation judged by the monitor, and Trace_Twin.tla compares with the run without misuse.")
 
 
+# ---------------------------------------------------------------------------------------------
+# C18: internal buffers stay bounded
+# ---------------------------------------------------------------------------------------------
+
+def c18(res, wd):
+    rng = random.Random(res.seed * 1000 + 180)
+    nl, fl = sizes(res.tier, (3, 3000), (6, 20000))
+    ps = []
+    for i in range(nl):
+        p = plans.general(rng, fl, spectators=rng.choice([0, 1]))
+        p["p_pause"] = 0.0
+        p["max_ms"] = fl * 60 + 60000
+        ps.append(p)
+    # all-local sessions (no remote peers), with and without a spectator
+    for sp in (0, 1):
+        p = plans.general(rng, sizes(res.tier, 3000, 10000), npeers=1, spectators=sp)
+        p["max_ms"] = 400000
+        ps.append(p)
+    # events never drained
+    for i in range(sizes(res.tier, 2, 5)):
+        p = plans.general(rng, sizes(res.tier, 2000, 8000), npeers=rng.choice([2, 3]), spectators=rng.choice([0, 1]))
+        p["drain"] = False
+        p["cfg"]["notify"] = 100
+        p["cfg"]["timeout"] = 600000
+        p["outage_rate"] = 0.5
+        p["outage_lo"] = 120
+        p["outage_hi"] = 300
+        p["tick_ms"] = [16] + [21] * (len(p["tick_ms"]) - 1)
+        p["max_ms"] = 400000
+        ps.append(p)
+    # a spectator that stops acknowledging (it dies): it must be disconnected, not buffered for
+    for i in range(sizes(res.tier, 3, 10)):
+        p = plans.general(rng, 500, npeers=rng.choice([1, 2]), spectators=1)
+        n = len(p["cfg"]["peers"])
+        p["kills"] = [{"p": n - 1, "at_frame": rng.randrange(5, 80)}]
+        p["cfg"]["timeout"] = rng.choice([2000, 600000])     # by timeout, or only by the pending-output cap
+        p["cfg"]["notify"] = 500
+        p["silent_spectator_check"] = True
+        p["p_pause"] = 0.0
+        p["settle_ms"] = 500
+        ps.append(p)
+    engines.obs_runs(res, "C18", ps, {"C18"}, wd, "c18", nontrivial=lambda st, pl: st["ticks"] >= 1000, par=6)
+    # the link model's history bound (receive history pruned to 2W, stream intact) is part of C05's
+    # MC_Link runs; one small instance here keeps the model side of this property non-empty
+    engines.mc_generic(res, wd, "link_w1_bounds", "MC_Link.tla",
+                       {"W": 1, "MaxFrame": 6, "Cap": 2, "FaultBudget": 3, "SpectatorStyle": "TRUE"},
+                       invariants=["HistoryBounded", "StreamIntact", "NoEndpointError"], workers=8)
+    res.rule = ("buffer sizes read through the hook snapshot after every call and judged by Monitor.tla BufViol: event "
+                "queue <= 100, queued outgoing local inputs <= max delay + 2, pending local inputs <= local players, "
+                "unacknowledged inputs per player endpoint <= min(129, 2W + 2*max delay + 8) and per spectator endpoint "
+                "<= 128 + W + 2, received-input history <= 2W + 2, stored checksums <= 33, socket queue empty after "
+                "every poll; runs of 3000-20000 frames on all C01 topologies, all-local sessions, never-drained "
+                "sessions with frequent interruptions, and a spectator that dies (must end up Disconnected).  "
+                "non-trivial = >=1000 calls")
+
+
+# ---------------------------------------------------------------------------------------------
+# C17: behaviour is a function of the inputs, not of hash order
+# ---------------------------------------------------------------------------------------------
+
+def _order_plan(rng, frames, kind):
+    """Scenarios in which several endpoints / handles have work pending in the same call."""
+    if kind == "locals":
+        # 2+1 / 2+2 local players with different delays and run-time delay changes
+        p = plans.delays(rng, frames, npeers=2)
+        for pc in p["cfg"]["peers"]:
+            if pc["kind"] == "p2p" and len(pc["locals"]) == 1 and rng.random() < 0.7:
+                pass
+    elif kind == "many":
+        p = plans.general(rng, frames, npeers=rng.choice([3, 4]), spectators=rng.choice([0, 1, 2]))
+    elif kind == "drop":
+        p = plans.drop3(rng, frames)
+        if rng.random() < 0.6:
+            # two peers die (almost) together: both time-outs can be handled in one poll
+            n = len(p["cfg"]["peers"])
+            v1 = p["kills"][0]["p"]
+            v2 = (v1 + 1) % n
+            p["kills"].append({"p": v2, "at_frame": p["kills"][0]["at_frame"] + rng.choice([0, 1, 2])})
+            p["loss"] = 0.0
+            p["lat_hi"] = rng.choice([20, 60])
+    else:
+        p = plans.general(rng, frames, npeers=rng.choice([2, 3]), spectators=rng.choice([1, 2]))
+        p["cfg"]["desync"] = rng.choice([1, 3])
+    p["p_pause"] = 0.0
+    return p
+
+
+def c17(res, wd):
+    core.build()
+    reps = sizes(res.tier, 4, 16)
+    n, frames = sizes(res.tier, (12, 150), (60, 500))
+    rng = random.Random(res.seed * 1000 + 170)
+    ps = [_order_plan(rng, frames, ["locals", "many", "drop", "spec"][i % 4]) for i in range(n)]
+    # TLC-generated schedules for the 2+1-local-players and the 3-peer model are repeated as well
+    scheds = []
+    for tag, over in (("g21", {"Peers": "GenPeers21", "NumPlayers": 3, "MaxFrame": 6, "MaxSteps": 70, "DelayValues": "{0, 1}"}),
+                      ("g3", {"Peers": "GenPeers3", "NumPlayers": 3, "MaxFrame": 5, "MaxSteps": 80, "Mortal": "{2}"})):
+        sc, consts = engines.gen_schedules(wd, "c17" + tag, over, sizes(res.tier, 4, 20), 100, res.seed)
+        for x in sc:
+            scheds.append({"cfg": engines.scenario_of(consts), "steps": [{"a": "sync"}] + x["steps"],
+                           "linkcap": int(consts["LinkCap"])})
+    jobs = [(i, pl) for i, pl in enumerate(ps + scheds)]
+
+    def one(job):
+        i, pl = job
+        path = os.path.join(wd, "rep_%03d.ndjson" % i)
+        core.drive([pl] * reps, path)
+        r = engines.rep_compare(path, os.path.join(wd, "mdrep_%03d" % i))
+        o = core.validate_trace(path, os.path.join(wd, "mdrepo_%03d" % i))
+        return i, pl, path, r, o
+
+    for i, pl, path, r, o in core.parallel(one, jobs, n=8):
+        res.traces += reps
+        res.evaluations += 1
+        res.states += o["states"]
+        res.transitions += o["transitions"]
+        if sum(r["calls"].values()) >= 50:
+            res.nontrivial += 1
+        if i < 2:
+            res.add_sample({"plan_cfg": pl.get("cfg"), "repetitions": reps, "calls_per_peer": r["calls"]})
+        panics = [v for v in o["viol"] if v[1] == "PANIC" and not (isinstance(v[4], list) and v[4] and
+                  isinstance(v[4][-1], str) and "unequal-views" in v[4][-1])]
+        if r["diff"]:
+            replay = os.path.join(core.REPLAYS, "C17")
+            os.makedirs(replay, exist_ok=True)
+            rp = os.path.join(replay, "rep_%03d_s%d.ndjson" % (i, res.seed))
+            import shutil
+            shutil.copy(path, rp)
+            res.violations.append({"prop": "C17", "code": "repeated-runs-differ", "line": 0, "detail": r["diff"],
+                                   "family": "rep", "cls": "rep", "replay": rp})
+        else:
+            for pth in (path, path + ".plans.json"):
+                try:
+                    os.remove(pth)
+                except OSError:
+                    pass
+    res.rule = ("every plan / TLC-generated schedule is executed %d times inside one process (fresh hash-map random "
+                "states, nonces and magic numbers each time); Trace_Rep.tla compares, run against run, per peer the "
+                "sequence of advance_frame results, request lists with inputs/statuses, frames and game states call by "
+                "call, and per peer and remote address the event sequence.  Scenarios are biased to states where "
+                "several endpoints/handles have work in the same call: 2+1 / 2+2 local players with delay changes, 3-4 "
+                "peers with spectators, dying peers, desync reports.  non-trivial = >=50 calls compared" % reps)
+    res.assumptions += ["the schedule (API calls, delivered packets in per-link order, clock) is identical across the "
+                        "repetitions because the driver decides packet fates in (destination, send order)"]
+
+
 CHECKS = {
     "C01": c01,
     "C02": c02,
@@ -1070,6 +1216,8 @@ CHECKS = {
     "C13": c13,
     "C14": c14,
     "C16": c16,
+    "C17": c17,
+    "C18": c18,
 }
 
 
